@@ -129,6 +129,7 @@ class Harness:
         self.rcvd = {}
         self.ended = set()
         self.dead = False
+        self.prods = {}
         self.peer_refused = None
         # errors swallowed by a Deferred / logged by the reactor are observable through the log system
         from twisted.logger import globalLogPublisher, globalLogBeginner
@@ -262,6 +263,8 @@ class Harness:
             self.written[s] = bytearray()
             self.guarded("open", self.pump)
         elif k == "wu":
+            if o[1] in self.ended:
+                return              # the peer cannot update the window of a stream it has seen END_STREAM on
             self.ev.append({"e": "wu", "s": o[1], "n": o[2]})
             cl.increment_flow_control_window(o[2], None if o[1] == 0 else 2 * o[1] - 1)
             self.guarded("wu", self.pump)
@@ -278,9 +281,34 @@ class Harness:
             if self.guarded("write", self.reqs[s].write, data):
                 self.guarded("write", self.pump)
         elif k == "finish":
+            if o[1] in self.prods:
+                return              # a producer-driven response is finished by its producer
             self.ev.append({"e": "finish", "s": o[1]})
             if self.guarded("finish", self.reqs[o[1]].finish):
                 self.guarded("finish", self.pump)
+        elif k == "prod":          # the response of stream s is driven by a push producer writing these chunks
+            s = o[1]
+            h = self
+
+            class Prod:
+                def __init__(self, chunks):
+                    self.chunks, self.paused, self.stopped = list(chunks), False, False
+
+                def pauseProducing(self):
+                    self.paused = True
+                    h.ev.append({"e": "pause", "s": s})
+
+                def resumeProducing(self):
+                    self.paused = False
+                    h.ev.append({"e": "resume", "s": s})
+
+                def stopProducing(self):
+                    self.stopped = True
+            pr = Prod(o[2])
+            self.prods[s] = pr
+            self.guarded("registerProducer", self.reqs[s].registerProducer, pr, True)
+        elif k == "produce":
+            self.produce(o[1])
         elif k == "run":
             for _ in range(o[1]):
                 if self.dead:
@@ -301,7 +329,35 @@ class Harness:
         else:
             raise ValueError(o)
 
+    def produce(self, s):
+        """The producer of stream s, unless paused, writes its next chunk; when it has none left it unregisters
+        and finishes the response.  Returns True if it did something."""
+        pr = self.prods.get(s)
+        if pr is None or pr.paused or pr.stopped or self.dead:
+            return False
+        if pr.chunks:
+            n = pr.chunks.pop(0)
+            data = content(s, len(self.written[s]), n)
+            self.written[s] += data
+            self.ev.append({"e": "write", "s": s, "n": n})
+            if self.guarded("write", self.reqs[s].write, data):
+                self.guarded("write", self.pump)
+        else:
+            del self.prods[s]
+            self.ev.append({"e": "unprod", "s": s})
+            self.guarded("unregisterProducer", self.reqs[s].unregisterProducer)
+            self.ev.append({"e": "finish", "s": s})
+            if self.guarded("finish", self.reqs[s].finish):
+                self.guarded("finish", self.pump)
+        return True
+
     def quiesce(self):
+        for _ in range(500):
+            self.quiesce_scheduler()
+            if self.dead or not any([self.produce(s) for s in sorted(self.prods)]):
+                return
+
+    def quiesce_scheduler(self):
         from harness.core import MachineryError
         silent = 0
         need = 2 * len(self.written) + 3       # every unblocked stream gets a turn within this many steps (round robin)
@@ -350,7 +406,7 @@ def gen_plan(rng, nops=None):
     MF = [16384, 16384, 16385, 32768, 70000]
     INC = [lambda: rng.randint(1, 10), lambda: rng.randint(1, 10), lambda: rng.randint(50, 5000), lambda: rng.choice([16384, 65535]), lambda: rng.randint(70000, 300000)]
     ops = []
-    opened, finished = 0, set()
+    opened, finished, prodded = 0, set(), set()
     written = {}
     iw, mf = MAGIC_WIN, MAGIC_FRAME
     style = rng.choice(["tiny", "tiny", "mixed", "big"])   # tiny: small initial windows so that flow control binds
@@ -364,6 +420,20 @@ def gen_plan(rng, nops=None):
             opened += 1
             written[opened] = 0
             ops.append(["open", opened])
+        elif r < 0.21 and live and style != "big" and not prodded:
+            # a response driven by a push producer whose writes land exactly on the stream window, resumed by
+            # stream-level WINDOW_UPDATEs only (the connection window is opened once, beforehand)
+            s = rng.choice(live)
+            prodded.add(s)
+            finished.add(s)           # no direct writes / finish on it any more
+            sizes = [rng.choice([iw, iw, rng.randint(1, 50)]) or rng.randint(1, 50)] + [rng.randint(1, 3000) for _ in range(rng.randint(1, 3))]
+            ops.append(["wu", 0, 1 << 20])
+            ops.append(["prod", s, sizes])
+            ops.append(["quiesce"])
+            for c in sizes[1:]:
+                if rng.random() < 0.8:
+                    ops.append(["wu", s, c if rng.random() < 0.7 else rng.randint(1, 5000)])
+                    ops.append(["quiesce"])
         elif r < 0.45 and live:
             s = rng.choice(live)
             n = rng.choice(W if style != "tiny" else W[:3])()
@@ -473,6 +543,14 @@ def fingerprint(trace, rej):
             s = min(idle)      # name the lowest idle stream only
             return "quiesce/stream-sendable-but-send-loop-idle/window-opened-by-%s/%s" % (
                 st["opened_by"].get(s, "never-closed"), "loop-woken-since" if st["app_since"].get(s, True) else "loop-not-woken-since")
+        paused = set()
+        for x in ev[:rej.reached]:
+            if x["e"] == "pause":
+                paused.add(x["s"])
+            elif x["e"] in ("resume", "unprod"):
+                paused.discard(x["s"])
+        if any(s not in st["ended"] and min(st["conn"], st["win"][s]) - st["q"][s] > 0 for s in paused):
+            return "quiesce/producer-still-paused-although-window-has-room/window-opened-by-%s" % st["opened_by"].get(min(paused), "?")
         return "quiesce/finished-stream-not-ended"
     if e["e"] == "data":
         s = e["s"]
